@@ -275,6 +275,29 @@ func runC17(p *C17Plan) (*stats.Case, error) {
 				return nil, fmt.Errorf("%s: a populated database was modified by a start with prepared_db=true", what)
 			}
 			classes["corr_existing_db"]++
+			// ... and so is the smallest populated store there is: a database that was started once without a prepared file
+			// holds the genesis header only
+			gp := filepath.Join(dir, "gen.db")
+			stack.RemoveDB(gp)
+			sg, err := stack.New(stack.Options{Dir: dir, DBFile: "gen.db"})
+			if err != nil {
+				return nil, fmt.Errorf("infra: %w", err)
+			}
+			gd, _ := sg.Digest()
+			sg.Close()
+			sg2, err := stack.New(stack.Options{Dir: dir, DBFile: "gen.db", Cfg: func(cc *config.AppConfig) {
+				cc.Db.PreparedDb = true
+				cc.Db.PreparedDbFilePath = exp
+			}})
+			if err != nil {
+				return nil, fmt.Errorf("%s: start with prepared_db on a database holding the genesis header failed: %v", what, err)
+			}
+			gd2, _ := sg2.Digest()
+			sg2.Close()
+			if gd2 != gd {
+				return nil, fmt.Errorf("%s: a database holding only the genesis header was overwritten by a start with prepared_db=true", what)
+			}
+			classes["corr_existing_db_genesis_only"]++
 			continue
 		}
 		lines := append([]string{}, cleanLines...)
